@@ -220,6 +220,20 @@ func runC12(sc C12Script) *c12Result {
 	return res
 }
 
+// pumpWaitsForSocket: the writer pump is alive and blocked inside a socket
+// write of the in-memory connection (waiting for buffer space or its virtual
+// write deadline). Only then a frozen bubble is an artefact of the virtual
+// clock; a pump that is blocked on a lock or channel of the ws package, or that
+// is gone, means the blocked writers will never be released.
+func pumpWaitsForSocket(full string) bool {
+	for _, g := range strings.Split(full, "\n\n") {
+		if strings.Contains(g, "ws.(*WebsocketConnection).writeShipPump") {
+			return strings.Contains(g, "wsfault.(*Conn).Write")
+		}
+	}
+	return false
+}
+
 func judgeC12(t *testing.T, sc C12Script) (key, msg string, res *c12Result) {
 	core.Journal(sc)
 	var mu sync.Mutex
@@ -233,7 +247,7 @@ func judgeC12(t *testing.T, sc C12Script) (key, msg string, res *c12Result) {
 	defer mu.Unlock()
 	if err != nil {
 		var w *core.ErrWedge
-		if errors.As(err, &w) && strings.Contains(w.Full, "ws.(*WebsocketConnection).writeShipPump") {
+		if errors.As(err, &w) && pumpWaitsForSocket(w.Full) {
 			// the writer pump is alive (blocked in a socket write whose virtual
 			// deadline cannot fire while others wait for its mutex): a limit of
 			// the virtual clock, not a verdict
